@@ -424,7 +424,7 @@ body_generic_shelf = run_shelf
 body_generic_pair = run_pair
 
 _GT_ = '''
-@obligation(pre="0 <= k1 <= 4 and 0 <= k2 <= 4 and {lo} <= shape <= {lo} + 1 and -1 <= i1 <= 1 and -1 <= i2 <= 1", witnesses=(0, -1), timeout=300{tiers})
+@obligation(pre="0 <= k1 <= 4 and 0 <= k2 <= 4 and {lo} <= shape <= {lo} + 1 and -1 <= i1 <= 1 and -1 <= i2 <= 1", witnesses=(0, -1), timeout=480{tiers})
 def body_generic_{what}_{ai}_{lo}(k1: int, i1: int, k2: int, i2: int, shape: int) -> int:
     """{doc}"""
     return run_{what}({ai}, k1, i1, 'ab', k2, i2, 'ab', shape)
